@@ -356,6 +356,12 @@ def rule_r4(ctx, rep, current, legacy):
     rep.floor("upgrade inserts", 4)
 
 
+# R1-R5 read the shape of the codecs (slot layout of writer and reader, provenance of every restored field, child attach, the upgrade's inserts,
+# constructor / setter agreement); R7 folds save -> load for both codecs and the upgrade over the tree catalogue
+FOLDS = {"R7": {"count": "round-trip verdicts", "min": 54, "about": ("to_json", "from_json", "objectify", "to_20210209", "_serialize", "_from_dict")}}
+SUBORDINATE = {"R1": "R7", "R2": "R7", "R3": "R7", "R4": "R7", "R5": "R7"}
+
+
 def run(ctx, rep):
     rep.explanation = (
         "the ordered key layout the serialiser appends is extracted from its AST and compared slot by slot with the (index, key) "
